@@ -56,7 +56,13 @@ def main():
         man = json.load(open(os.path.join(VERIF, "MANIFEST.json")))
         pids = [c["property_id"] for c in man["checks"]]
         table = {}
+        # --only=a,b,c refreshes just these seeds in the existing MATRIX.json
+        sel = [a.split("=", 1)[1].split(",") for a in sys.argv if a.startswith("--only=")]
+        if sel and os.path.exists(os.path.join(VERIF, "seeded", "MATRIX.json")):
+            table = json.load(open(os.path.join(VERIF, "seeded", "MATRIX.json")))
         for s in seeds():
+            if sel and s["name"] not in sel[0]:
+                continue
             only = [s["property"]] + s["also"] if "--own" in sys.argv else pids
             table[s["name"]] = run_seed(s, [p for p in only if p in pids])
             caught = [p for p, r in table[s["name"]].items() if r["exit"] == 1]
